@@ -51,3 +51,5 @@ def run(rep, tier):
                     rep.add(Finding('SPAN-writers', f'{rel}:{fname}', '', f'{what}: {fname} writes position_info',
                                     f'{rel}:{fname}'))
     rep.floor('runtime copies analysed', rep.instances.get('runtime copies analysed', 0), 3)
+    from .. import controls
+    controls.e1_controls(rep)
